@@ -363,11 +363,24 @@ fn ids(g: &HpoGroup) -> BTreeSet<u32> {
     g.iter().map(|i| i.as_u32()).collect()
 }
 
+/// Facts with obsolete flags or replacements go through the binary format (the Builder API cannot set them);
+/// the hierarchy of a flagged term is a fact like any other, and so are its ancestor queries.
+fn build_terms(f: &Facts) -> Result<hpo::Ontology, String> {
+    if f.terms.iter().any(|t| t.obsolete || t.replacement.is_some()) {
+        crate::build::via_binary(f, 3)
+    } else {
+        via_builder(f, Finish::Minimal)
+    }
+}
+
 fn check_terms(f: &Facts, stats: &mut Stats) -> CheckResult {
-    let ont = match via_builder(f, Finish::Minimal) {
+    let ont = match build_terms(f) {
         Ok(o) => o,
         Err(e) => return fail("construct/builder", e),
     };
+    if f.terms.iter().any(|t| t.obsolete) && !f.edges.is_empty() {
+        stats.label("terms:obsolete-terms-in-the-hierarchy");
+    }
     let m = Model::new(f);
     for a in &m.ids {
         let ta = ont.hpo(*a).unwrap();
@@ -424,7 +437,7 @@ fn check_terms(f: &Facts, stats: &mut Stats) -> CheckResult {
         if f2.edges == f.edges {
             continue;
         }
-        let ont2 = match via_builder(&f2, Finish::Minimal) {
+        let ont2 = match build_terms(&f2) {
             Ok(o) => o,
             Err(e) => return fail("construct/builder", e),
         };
@@ -608,7 +621,8 @@ fn strategy(tier: Tier) -> BoxedStrategy<Case> {
         5 => pair_strategy(),
         1 => tiny_vs_large_strategy(),
         1 => run_with_holes_strategy(),
-        2 => gen::facts(cfg).prop_map(|facts| Case::Terms { facts }),
+        2 => gen::facts(cfg.clone()).prop_map(|facts| Case::Terms { facts }),
+        1 => gen::facts(cfg.standard().with_flags(false)).prop_map(|facts| Case::Terms { facts }),
     ]
     .boxed()
 }
